@@ -100,6 +100,9 @@ def run_conv(e, t, opts):
             if r.variant != 0:
                 nm = 'f%d' % n
                 r = src.add(nm, s, a)
+            # a transient datum: added and removed again before the close (consumes an identifier)
+            if opts.get('transient', True) and e.branch(z3.Bool('undo_%d' % n)):
+                src.remove(r.fields[0].fields[0])
             n += 1
         src.close(t['src_strategy'])
     sdef = e.call(GB + 'build', [src.inner])
@@ -154,7 +157,7 @@ def conv_scenario(t, model):
         rm = sorted(int(k.split('_')[2]) for k, val in model.items() if k.startswith('rm_%d_' % v) and str(val) == 'True')
         adds = []
         for j in range(t['adds'][v]):
-            adds.append(dict(s=[(4, 4), (0, 1), (3, 1), (16, 16), (12, 4), (1, 1)][n % 6][0], a=[(4, 4), (0, 1), (3, 1), (16, 16), (12, 4), (1, 1)][n % 6][1], reuse=str(model.get('reuse_%d' % n, 'False')) == 'True'))
+            adds.append(dict(s=[(4, 4), (0, 1), (3, 1), (16, 16), (12, 4), (1, 1)][n % 6][0], a=[(4, 4), (0, 1), (3, 1), (16, 16), (12, 4), (1, 1)][n % 6][1], reuse=str(model.get('reuse_%d' % n, 'False')) == 'True', undo=str(model.get('undo_%d' % n, 'False')) == 'True'))
             n += 1
         steps.append(dict(strategy=t['src_strategy'], rm=rm, add=adds))
     tstr = [int(v) for k, v in sorted(model.items()) if k.startswith('tstrat')]
